@@ -231,6 +231,7 @@ type BuiltTx struct {
 	AVS        *AVSTx
 	ViaForwarder bool           // sent to the gateway forwarder contract, which CALLs Precompile
 	Reverting    bool           // the forwarder reverts after the inner call
+	NEth         int            // number of Ethereum messages in an "ethbatch" transaction
 	CallMode     string         // "static" / "delegate": the forwarder used STATICCALL / DELEGATECALL instead of CALL
 	Precompile   common.Address
 }
